@@ -89,7 +89,7 @@ TypeOK == /\ w.inst \in BOOLEAN /\ w.masked /\ ~u.masked
 Proj(x) == [f |-> x.f, ver |-> x.ver, active |-> x.active, inst |-> x.inst]
 Inv_Twin == Proj(w) = Proj(u)
 \* the right token always opens the masked wallet; no other kind ever does
-Inv_Tokens == \A k \in KindsFor(w) : TokenValid(w, Tok(w, k)) <=> (k = "right")
+Inv_Tokens == w.inst => \A k \in KindsFor(w) : (Keychain(w, Tok(w, k)) = "ok") <=> (k = "right")
 
 IsCall == last'.k \in {"case", "hist"}
 M == last'.m
@@ -97,7 +97,7 @@ V == last'.v
 K == last'.tok
 E == Exec(w, M, V, Tok(w, K))
 T == Exec(u, M, V, Tok(u, "right"))
-Wrong == ~TokenValid(w, Tok(w, K))
+Wrong == ~IsRight(w, Tok(w, K))
 Cls == ClassOf(M, V, w.node)
 RR == Exec(w, M, V, Tok(w, "right")).res
 O == [res |-> E.res, same |-> E.same, ret |-> E.res, proj |-> Proj(E.w)]
